@@ -184,7 +184,9 @@ def collect(ctx, vh, jobs, name, args, shard=400, label=None):
         k, d = key(r)
         ctx.count(1, nontrivial_key=k, dist=d)
     ctx.sample({"suite": label, "case": rows[len(rows) // 2]}, limit=8)
-    jobs.append({"name": name, "label": label, "rows": rows, "terms": [build(r) for r in rows], "shard": shard})
+    # every term carries its type: a shard whose lists are all empty would otherwise not elaborate
+    terms = ["(%s : %s_case)" % (build(r), name) for r in rows]
+    jobs.append({"name": name, "label": label, "rows": rows, "terms": terms, "shard": shard})
 
 
 def evaluate(ctx, jobs):
